@@ -13,7 +13,8 @@ META = {
     'required_obs': {'quick': ['cmp-dict', 'cmp-struct', 'cmp-hdf5', 'cmp-inline-window', 'window-dict', 'window-struct',
                                'window-hdf5', 'window-inline', 'permuted', 'extra-datasets', 'mapping', 'open-ended',
                                'frames-decoded', 'fastpath-permuted', 'fastpath-aligned', 'fastpath-view', 'fastpath-packed', 'same-data-object-reused',
-                               'repeated-channel-names', 'repeated-channel-names-across-sets', 'paths-as-Path']},
+                               'repeated-channel-names', 'repeated-channel-names-across-sets', 'paths-as-Path', 'int-cast-out-of-range', 'consecutive-windows-one-file',
+                               'index-channel-with-units']},
     'exhaustive_windows': {'quick': ['all windows 0 <= from < to <= N for N = 4, every source kind'],
                            'thorough': ['all windows 0 <= from < to <= N for N in 1..6, every source kind x input chunk {None,1,2}']},
     'assumptions': ['origins carry explicit file_set_number and creation_time so that nothing random enters the bytes'],
@@ -33,6 +34,12 @@ def cases(tier, seed):
         yield {'stratum': 'random', 'index': k, 'kind': 'random'}
     for k in range(100 if tier == 'quick' else 3000):
         yield {'stratum': 'struct-fastpath', 'index': k, 'kind': 'fastpath'}
+    # declared integer casts of out-of-range values: the conversion must not depend on the kind of source
+    for k in range(40 if tier == 'quick' else 1000):
+        yield {'stratum': 'int-cast-out-of-range', 'index': k, 'kind': 'int-cast'}
+    # ONE DLISFile written several times with consecutive row windows (the data split over several files)
+    for k in range(40 if tier == 'quick' else 1000):
+        yield {'stratum': 'consecutive-windows-one-file', 'index': k, 'kind': 'consecutive'}
     # channel names repeated across the frames (and channel sets) of one logical file: every channel still gets its own data
     for k in range(40 if tier == 'quick' else 1000):
         yield {'stratum': 'repeated-channel-names', 'index': k, 'kind': 'repeated'}
@@ -153,6 +160,59 @@ def run_case(case):
                             'detail': f'write #{k_ + 1} from the same structured array differs from the inline reference '
                                       f'(first write {"equal" if outs[0] == ref.data else "differs"})', 'variant': spd['write']})
         sample = {'kind': 'struct fast path', 'rows': N, 'variant': wsave.get('struct_variant'), 'permuted': wsave.get('perm_seed') is not None}
+    elif case['kind'] == 'int-cast':
+        r = gen.rng(seed, PROP, case['stratum'], case['index'])
+        base = gen.int_cast_spec(r, sources=('inline',), nframes=1, layouts=('C', 'strided'))
+        N = [o for o in base['ops'] if o['op'] == 'channel'][0]['data']['shape'][0]
+        base['write'] = {'source': 'inline', 'output_chunk_size': 2 ** 16}
+        ref = run(base)
+        bump('int-cast-out-of-range')
+        for src in ['dict', 'struct', 'hdf5']:
+            sp = copy.deepcopy(base)
+            sp['write'].update({'source': src, 'perm_seed': None, 'extra': 0, 'input_chunk_size': r.choice(gen.chunk_choices(N))})
+            compare(ref, sp, src, f'int-cast:{src}', True, decode=True)
+        sample = {'kind': 'int cast', 'rows': N, 'channels': [(o['name'], o['data']['dtype'], o.get('cast_dtype')) for o in base['ops'] if o['op'] == 'channel'][:6]}
+    elif case['kind'] == 'consecutive':
+        from vf import spec as S
+        r = gen.rng(seed, PROP, case['stratum'], case['index'])
+        N = r.choice([6, 9, 20])
+        base = gen.frame_spec(r, rows=N, sources=('inline', 'dict', 'struct', 'hdf5'), layouts=('C', 'strided'), index=r.random() < 0.8,
+                              nframes=1, mx=r.choice([256, 8192]), max_width=40, fills=('pos',), dtypes=('float64', 'float32', 'uint16', 'int32'))
+        src = base['write']['source']
+        chans = [o for o in base['ops'] if o['op'] == 'channel']
+        fr = [o for o in base['ops'] if o['op'] == 'frame'][0]
+        if fr['attrs'].get('index_type') is not None:
+            chans[0]['data']['fill'] = {'kind': 'lin', 'start': r.choice([0.0, 100.0, -5.0]), 'step': r.choice([0.5, 1, 2])}
+            if r.random() < 0.7:
+                chans[0]['attrs']['units'] = r.choice(['m', 'ft', 's'])
+                bump('index-channel-with-units')
+        base['write'] = {'source': src, 'output_chunk_size': 2 ** 16, 'perm_seed': base['write'].get('perm_seed'), 'extra': 0,
+                         'struct_variant': base['write'].get('struct_variant')}
+        cuts = sorted(r.sample(range(1, N), r.choice([1, 2, 3])))
+        wins = list(zip([0] + cuts, cuts + [None]))
+        if r.random() < 0.5:
+            r.shuffle(wins)
+        b = S.build(base)
+        data_obj = S.make_write_data(base, b, harness.scratch_dir()) if b.error is None else None
+        bump('consecutive-windows-one-file')
+        for a, z in wins:
+            refw = run(presliced(base, a, z))
+            path = harness.fresh_path()
+            ics = r.choice(gen.chunk_choices(max(1, (z or N) - a)))
+            w_ = S.do_write(base, b, path, harness.scratch_dir(), data=data_obj, from_idx=a, to_idx=z, input_chunk_size=ics)
+            out = open(path, 'rb').read() if w_[0] == 'ok' else None
+            evals += 1
+            bump('window-' + src)
+            sigs.append(f'consecutive:{src}:{len(wins)}')
+            if (out is None) != (refw.data is None):
+                vio.append({'prop': PROP, 'kind': 'source-outcome-differs', 'mech': 'outcome:consecutive-windows:' + src,
+                            'detail': f'window [{a},{z}) of one DLISFile ({src}): {w_[:3]}; fresh pre-sliced write: {refw.wout[:3]}'})
+            elif out is not None and out != refw.data:
+                d = next((i for i in range(min(len(out), len(refw.data))) if out[i] != refw.data[i]), min(len(out), len(refw.data)))
+                vio.append({'prop': PROP, 'kind': 'bytes-differ', 'mech': 'bytes:consecutive-windows:' + src,
+                            'detail': f'window [{a},{z}) written from one DLISFile (windows {wins}, {src} source) differs from the fresh '
+                                      f'write of the pre-sliced arrays at offset {d} (sizes {len(out)} / {len(refw.data)})'})
+        sample = {'kind': 'consecutive windows', 'rows': N, 'source': src, 'windows': wins}
     elif case['kind'] == 'repeated':
         r = gen.rng(seed, PROP, case['stratum'], case['index'])
         base = gen.frame_spec(r, sources=('inline',), nframes=r.choice([2, 2, 3]), layouts=('C', 'strided'), dataset_names=False,
